@@ -58,6 +58,7 @@ class Gen:
         self.lists = {}		# name -> list of int
         self.funs = {}		# name -> (arity, python callable)
         self.pending = []	# names whose ill-typed definition was rejected: define them properly later
+        self.pending_dom = []
         self.forms = []
 
     def fresh(self, p):
@@ -229,6 +230,20 @@ class Gen:
             val = str(v)
         return self.add(Form("out", '%s << "%s" << %s << newline;' % (self.d.out, m, e), marker=m, value=m + val))
 
+    def g_domain(self, name=None):
+        """a small domain with a representation, then an import; values go through it"""
+        SI = self.d.SI
+        nm = name or self.fresh("D")
+        k = self.rng.range(1, 9)
+        mk, val = "mk" + nm, "val" + nm
+        text = ("%s: with { %s: %s -> %%; %s: %% -> %s } == add {\n   Rep ==> %s;\n   %s(n: %s): %% == per n;\n"
+                "   %s(x: %%): %s == rep x + %d;\n}" % (nm, mk, SI, val, SI, SI, mk, SI, val, SI, k))
+        self.add(Form("domain", text))
+        self.add(Form("import", "import from %s;" % nm))
+        fn = self.fresh("f")
+        self.funs[fn] = (1, lambda a, k=k: a + k)
+        return self.add(Form("fun", "%s(a: %s): %s == %s %s a;" % (fn, SI, SI, val, mk)))
+
     def g_loop(self):
         if not self.vars:
             return self.g_var()
@@ -255,6 +270,8 @@ class Gen:
         opts += ["undefined", "bad-return", "bad-def", "bad-def", "bad-import", "bad-block"]
         if self.funs:
             opts.append("bad-overload")
+        if self.d.name != "libaldor":
+            opts.append("bad-domain")
         # (a second definition with the signature of an existing function is NOT in the
         # catalogue: the loop answers it with an interactive "Redefine? (y/n)" question that
         # eats the following input - a dialogue, not a rejection, and outside the property)
@@ -282,6 +299,12 @@ class Gen:
             # signature): the existing meaning must keep working afterwards
             fn = r.choice(sorted(self.funs))
             return self.add(Form("bad:" + k, '%s(x: String): %s == x + 1;' % (fn, SI), good=False))
+        if k == "bad-domain":
+            nm = self.fresh("D")
+            self.pending_dom.append(nm)
+            text = ("%s: with { mk%s: %s -> %%; val%s: %% -> %s } == add {\n   Rep ==> %s;\n   mk%s(n: %s): %% == per n;\n"
+                    "   val%s(x: %%): %s == \"oops\";\n}" % (nm, nm, SI, nm, SI, SI, nm, SI, nm, SI))
+            return self.add(Form("bad:" + k, text, good=False))
         if k == "bad-import":
             return self.add(Form("bad:" + k, "import from %s;" % self.fresh("NoSuchDomain"), good=False))
         if k == "bad-block":
@@ -302,9 +325,16 @@ class Gen:
         return self.add(Form("bad:" + k, '%s(a: %s): %s == a + "oops";' % (nm, SI, SI), good=False))
 
     def c_any(self):
-        k = self.rng.weighted([("gc", 3), ("blank", 1), ("comment", 1)])
+        k = self.rng.weighted([("gc", 6), ("blank", 2), ("comment", 2), ("history", 2), ("msglimit", 1), ("timing", 1)])
         if k == "gc":
             return self.add(Form("ctl:gc", "#int gc", good=None))
+        if k == "history":
+            self.hist = not getattr(self, "hist", False)
+            return self.add(Form("ctl:history", "#int history %s" % ("on" if self.hist else "off"), good=None))
+        if k == "msglimit":
+            return self.add(Form("ctl:msglimit", "#int msg-limit %d" % self.rng.choice([0, 0, 200, 2000]), good=None))
+        if k == "timing":
+            return self.add(Form("ctl:timing", "#int timing off", good=None))
         if k == "blank":
             return self.add(Form("ctl:blank", "", good=None))
         return self.add(Form("ctl:comment", "-- %s" % self.fresh("note"), good=None))
@@ -337,8 +367,11 @@ class Gen:
                 if self.pending and r.chance(3, 4):
                     self.g_fun(self.pending.pop(0))
                     continue
+                if self.pending_dom and r.chance(3, 4):
+                    self.g_domain(self.pending_dom.pop(0))
+                    continue
                 k = r.weighted([("out", 30), ("assign", 12), ("var", 8), ("const", 8), ("fun", 10), ("big", 6),
-                                ("str", 6), ("list", 8), ("loop", 6)])
+                                ("str", 6), ("list", 8), ("loop", 6), ("domain", 3 if self.d.name != "libaldor" else 0)])
                 getattr(self, "g_" + k)()
         # every session ends with an output so the last state is observed
         self.g_out()
